@@ -2,7 +2,10 @@ package node
 
 import (
 	"bytes"
+	"fmt"
 	"strings"
+
+	"github.com/freeconf/yang/fc"
 )
 
 type PathMatcher interface {
@@ -11,7 +14,14 @@ type PathMatcher interface {
 
 type PathMatchExpression struct {
 	paths []segments
+
+	// the expression stands for more paths than maxSelectorPaths
+	tooMany bool
 }
+
+// every group of alternatives multiplies the paths a selector stands for, x(a;b)(a;b)... of
+// a few dozen groups would never finish expanding
+const maxSelectorPaths = 4096
 
 // a single, denormalized list of idents after parsing expression
 //
@@ -27,6 +37,9 @@ type segments []string
 func ParsePathExpression(selector string) (*PathMatchExpression, error) {
 	pe := &PathMatchExpression{}
 	pe.parsex(&lex{selector: selector})
+	if pe.tooMany {
+		return nil, fmt.Errorf("%w. selector stands for more than %d paths", fc.BadRequestError, maxSelectorPaths)
+	}
 	return pe, nil
 }
 
@@ -102,6 +115,10 @@ func (e *PathMatchExpression) parsex(l *lex) {
 //	   [c, d, e, f]
 //	   [c, d, g, h]
 func (e *PathMatchExpression) expandPaths(sub *PathMatchExpression) {
+	if e.tooMany || sub.tooMany || len(e.paths)*len(sub.paths) > maxSelectorPaths {
+		e.tooMany = true
+		return
+	}
 	expanded := make([]segments, len(e.paths)*len(sub.paths))
 	for i, dest := range e.paths {
 		for j, src := range sub.paths {
@@ -129,6 +146,10 @@ func (e *PathMatchExpression) expandPaths(sub *PathMatchExpression) {
 //	   [e, f]
 //	   [g, h]
 func (e *PathMatchExpression) appendPaths(next *PathMatchExpression) {
+	if e.tooMany || next.tooMany || len(e.paths)+len(next.paths) > maxSelectorPaths {
+		e.tooMany = true
+		return
+	}
 	e.paths = append(e.paths, next.paths...)
 }
 
